@@ -23,7 +23,10 @@ pub trait BuildSchema {
 	/// Build a [`SchemaMut`] for this type
 	fn schema_mut() -> SchemaMut {
 		let mut builder = SchemaBuilder::default();
-		Self::append_schema(&mut builder);
+		// Going through `find_or_build` registers the root type as already built, so
+		// that if it refers to itself (recursive type) it is not built a second time
+		// (which would result in two definitions of the same name).
+		builder.find_or_build::<Self>();
 		SchemaMut::from_nodes(builder.nodes)
 	}
 
